@@ -849,7 +849,7 @@ where
             let next_symbol = symbol + Symbol::one();
             self.symbol = Some(next_symbol);
             let non_leaky: Probability = (self.model.quantizer.free_weight
-                * self.model.inner.distribution((symbol).into() - 0.5))
+                * self.model.inner.distribution((symbol).into() + 0.5))
             .as_();
             non_leaky + slack(next_symbol, self.model.quantizer.min_symbol_inclusive)
         };
